@@ -104,49 +104,48 @@ def part_c(tier, out):
     flags = f"-Zmiri-many-seeds=0..{seeds} -Zmiri-preemption-rate=0.1 -Zmiri-disable-isolation"
     env = dict(ENV, MIRIFLAGS=flags)
     t0 = time.time()
-    r = sh(f"cargo +nightly miri run --features ts --bin miri_scn --target-dir target-miri -- {SEED} 0 {programs}", cwd=SIM, env=env, timeout=7200)
-    text = r.stdout + "\n" + r.stderr
-    ok_lines = len([l for l in r.stdout.splitlines() if l.endswith(" ok")])
-    res = {
-        "miri_seeds": seeds,
-        "programs": programs,
-        "program_executions_ok": ok_lines,
-        "flags": flags,
-        "wall_s": time.time() - t0,
-        "exit": r.returncode,
-    }
-    if r.returncode == 0:
-        return res, 0, None
-    findings = [l for l in text.splitlines() if "FINDINGS" in l]
-    ub = [l for l in text.splitlines() if MIRI_ERR.search(l)]
-    if findings and not ub:
-        # a lineage mismatch: is it there without any thread too (fresh native process)? then it
-        # is not a thread-safety matter and is not reported under C20
-        sh("cargo build --release --features ts --bin miri_scn --target-dir target-ts", cwd=SIM)
-        progs = sorted(set(int(m.group(1)) for m in (re.match(r"program (\d+) ", l) for l in findings) if m))
-        still = []
-        for pnum in progs:
-            rb = sh(f"./target-ts/release/miri_scn {SEED} {pnum} 1 baseline", cwd=SIM)
-            if rb.returncode == 0:
-                still.append(pnum)
-        res["programs_with_findings"] = progs
-        res["programs_failing_without_threads"] = [x for x in progs if x not in still]
-        if not still:
-            res["note"] = "lineage mismatches also occur without threads: not a C20 matter"
-            return res, 0, None
-        findings = [l for l in findings if any(l.startswith(f"program {x} ") for x in still)]
-    if findings or ub:
-        os.makedirs(ROOT + "/replays/C20", exist_ok=True)
-        path = f"{ROOT}/replays/C20/miri-{SEED}.json"
-        m = re.search(r"FAILING SEED: (\d+)", text) or re.search(r"seed[:= ]+(\d+)", text)
-        json.dump({"property": "C20", "mode": "miri", "seed": SEED, "programs": programs, "miri_flags": flags,
-                   "failing_miri_seed": int(m.group(1)) if m else None,
-                   "diagnostics": (ub + findings)[:20], "output_tail": text[-6000:]}, open(path, "w"), indent=1)
-        res["diagnostics"] = (ub + findings)[:5]
-        print("Miri:", (ub + findings)[0][:300])
-        return res, 1, f"VIOLATION property=C20 replay={path}"
-    res["stderr"] = text[-3000:]
-    return res, 2, None
+    res = {"miri_seeds": seeds, "programs": programs, "program_executions_ok": 0, "flags": flags,
+           "one_program_per_process": True}
+    # one program per Miri process: every execution starts with untouched process-global state,
+    # so lazily initialised statics see a contended first use in every execution
+    for prog in range(programs):
+        try:
+            r = sh(f"cargo +nightly miri run --features ts --bin miri_scn --target-dir target-miri -- {SEED} {prog} 1", cwd=SIM, env=env, timeout=3600)
+        except subprocess.TimeoutExpired:
+            res["wall_s"] = time.time() - t0
+            res["timeout_program"] = prog
+            return res, 2, None
+        text = r.stdout + "\n" + r.stderr
+        res["program_executions_ok"] += len([l for l in r.stdout.splitlines() if l.endswith(" ok")])
+        if r.returncode == 0:
+            continue
+        res["wall_s"] = time.time() - t0
+        res["exit"] = r.returncode
+        findings = [l for l in text.splitlines() if "FINDINGS" in l]
+        ub = [l for l in text.splitlines() if MIRI_ERR.search(l)]
+        if findings and not ub:
+            # a lineage mismatch: is it there without any thread too (fresh native process)? then
+            # it is not a thread-safety matter and is not reported under C20
+            sh("cargo build --release --features ts --bin miri_scn --target-dir target-ts", cwd=SIM)
+            rb = sh(f"./target-ts/release/miri_scn {SEED} {prog} 1 baseline", cwd=SIM)
+            if rb.returncode != 0:
+                res.setdefault("programs_failing_without_threads", []).append(prog)
+                continue
+        if findings or ub:
+            os.makedirs(ROOT + "/replays/C20", exist_ok=True)
+            path = f"{ROOT}/replays/C20/miri-{SEED}.json"
+            m = re.search(r"FAILING SEED: (\d+)", text) or re.search(r"seed[:= ]+(\d+)", text)
+            json.dump({"property": "C20", "mode": "miri", "seed": SEED, "program": prog, "programs": 1, "miri_flags": flags,
+                       "failing_miri_seed": int(m.group(1)) if m else None,
+                       "diagnostics": (ub + findings)[:20], "output_tail": text[-6000:]}, open(path, "w"), indent=1)
+            res["diagnostics"] = (ub + findings)[:5]
+            print("Miri:", (ub + findings)[0][:300])
+            return res, 1, f"VIOLATION property=C20 replay={path}"
+        res["stderr"] = text[-3000:]
+        return res, 2, None
+    res["wall_s"] = time.time() - t0
+    res["exit"] = 0
+    return res, 0, None
 
 
 def main():
@@ -292,7 +291,7 @@ def replay(path):
     if mode == "miri":
         s = tr.get("failing_miri_seed")
         flags = tr["miri_flags"] if s is None else f"-Zmiri-seed={s} -Zmiri-preemption-rate=0.1 -Zmiri-disable-isolation"
-        r = sh(f"cargo +nightly miri run --features ts --bin miri_scn --target-dir target-miri -- {tr['seed']} 0 {tr['programs']}", cwd=SIM, env=dict(ENV, MIRIFLAGS=flags))
+        r = sh(f"cargo +nightly miri run --features ts --bin miri_scn --target-dir target-miri -- {tr['seed']} {tr.get('program', 0)} {tr['programs']}", cwd=SIM, env=dict(ENV, MIRIFLAGS=flags))
         text = r.stdout + r.stderr
         if r.returncode != 0 and (MIRI_ERR.search(text) or "FINDINGS" in text):
             print(text[-2000:])
